@@ -28,6 +28,7 @@ Guard(a, g) ==
     [] a \in {"after", "before"}    -> CanBeside(g.p, g.n)
     [] a \in {"unlink", "destroy", "clear", "relink", "pos", "locate", "next", "traverse"} -> g.n \in live
     [] a \in {"clonenode", "clonetree", "clonelist"} -> CanClone(a, g.n)
+    [] a = "clonefail" -> g.kind \in CloneKinds /\ CanClone(g.kind, g.n)
     [] a = "move"     -> CanMove(g.s, g.d)
     [] a = "swap"     -> CanSwap(g.a, g.b)
     [] a = "find"     -> g.p \in live
@@ -64,6 +65,11 @@ Step(ev) ==
   THEN /\ ~Guard(ev.a, ev.arg)
        /\ UNCHANGED <<live, hp, name, val, fo>>
        /\ Ans("skipped", ev.arg, "skipped", <<>>, "skipped")
+  \* a clone with an armed allocation failure: the recorded fact whether the
+  \* failure was met selects the branch (failed clone / ordinary clone)
+  ELSE IF ev.a = "clonefail"
+  THEN IF ev.obs.fired = 1 THEN CloneFail(ev.arg.kind, ev.arg.n, ev.arg.failat, ev.arg.failmeta) /\ ev.obs.grow = 0
+       ELSE Call(ev.arg.kind, ev.arg)
   ELSE Call(ev.a, ev.arg)
 
 Matches(ev) ==
